@@ -481,6 +481,11 @@ func ToValue(glob string) Target {
 	}}
 }
 
+// ToGo: a `go` statement (goroutine launch), within the same loop iteration.
+func ToGoSameIter() Target {
+	return Target{Name: "goroutine launch", SameIter: true, Instr: func(i ssa.Instruction) bool { _, ok := i.(*ssa.Go); return ok }}
+}
+
 func ToValueSameIter(glob string) Target {
 	t := ToValue(glob)
 	t.SameIter = true
@@ -504,7 +509,13 @@ func (c *Ctx) ReturnIs(fn *ssa.Function, idx int, want []string, why string) {
 	for _, w := range want {
 		found := false
 		for g, ins := range got {
-			if MatchCond(w, g) {
+			m := false
+			for _, alt := range strings.Split(w, " OR ") {
+				if MatchCond(alt, g) {
+					m = true
+				}
+			}
+			if m {
 				found = true
 				c.OK("K5", fnName, "returns `"+w+"`", c.At(ins), why)
 				delete(got, g)
